@@ -681,6 +681,17 @@ mut("C16", "descendant-no-visited", ("x/exp/schema/validate/cedar_type.go", '''	
 	}''', ''''''))
 mut("C16", "request-nil-appliesto", ("x/exp/schema/validate/request.go", '''	if action.AppliesTo == nil || !slices.Contains(action.AppliesTo.Principals, req.Principal.Type) {''', '''	if !slices.Contains(action.AppliesTo.Principals, req.Principal.Type) {'''))
 
+# ---- C17
+mut("C17", "json-required-default-optional", ("x/exp/schema/internal/json/json.go", "			Optional: ja.Required != nil && !*ja.Required,", "			Optional: ja.Required == nil || !*ja.Required,"))
+mut("C17", "text-keywords-unquoted", ("x/exp/schema/internal/parser/marshal.go", "	return !cedarparser.IsReservedKeyword(s)\n}", "	return true || !cedarparser.IsReservedKeyword(s)\n}"))
+mut("C17", "attr-annotations-dropped-in-json", ("x/exp/schema/internal/json/json.go", '''		if len(attr.Annotations) > 0 {
+			ja.Annotations = marshalAnnotations(attr.Annotations)
+		}''', ''''''))
+mut("C17", "text-attr-annotations-dropped", ("x/exp/schema/internal/parser/marshal.go", "			m.marshalAnnotations(attr.Annotations)", "			_ = attr.Annotations"))
+mut("C17", "entity-parents-truncated-in-text", ("x/exp/schema/internal/parser/marshal.go", "			m.marshalEntityTypeRefs(entity.ParentTypes)", "			m.marshalEntityTypeRefs(entity.ParentTypes[:min(2, len(entity.ParentTypes))])"))
+
+mut("C17", "tags-dropped-when-shape-empty", ("x/exp/schema/internal/parser/marshal.go", "		if entity.Tags != nil {\n			m.w.WriteString(\" tags \")", "		if entity.Tags != nil && len(entity.Shape) > 0 {\n			m.w.WriteString(\" tags \")"))
+
 # ---- C20
 mut("C20", "unmarshal-merges", ("policy_set.go", """	*p = PolicySet{
 		policies: make(PolicyMap, len(jsonPolicySet.StaticPolicies)),
